@@ -70,6 +70,7 @@ static void sw_init(int argc, char **argv, const char *name)
         { struct itimerval itv = {{5, 0}, {5, 0}}; signal(SIGALRM, sw_on_watchdog); setitimer(ITIMER_REAL, &itv, NULL); }
         wcfg_defaults(&W);
         W.merge_doomed = 0;
+        W.interfere = sw_argi(argc, argv, "--interfere", 0);
 }
 
 static const uint8_t *sw_cur_bytes; static int sw_cur_n; static const char *sw_cur_setvars;
